@@ -14,6 +14,7 @@ from common import err_kind, enc, encl, dec, decl, close, close_list
 from fractions import Fraction as F
 from props import c11_hist as H
 from props import c11_float as FL
+from props import c11_tr as TR
 
 ID = "C11"
 RULE = ("exhaustive small grids (reflection vectors of length <= 3 over a 9-point pool, pole sets of "
@@ -48,6 +49,27 @@ RULE = ("exhaustive small grids (reflection vectors of length <= 3 over a 9-poin
         "kinds (constructed Laurent ZFilter; int / bool / Fraction; Stream; float / complex / None / str / list / tuple / "
         "dict / Poly): which exception, raised by the call expression or by the first next(), yields, verdict")
 TRUSTED = [
+    "round 5, translator T5 (harness/props/c11_tr.py: ast -> lean/ALV/Gen/C11Src.lean, rewritten before every build): the "
+    "statements of lazy_lpc.parcor and lazy_lpc.parcor_stable are REGENERATED from the source and proved equal to the model "
+    "functions of the theorems (Props.C11.src_pstep_is_model, src_ploop_is_model, src_parcor_is_model, "
+    "src_parcor_is_exact_model, src_parcor_f64, src_parcor_stable_is_model, src_parcor_stable_is_exact_model, "
+    "src_parcor_stable_f64, src_parcor_guard_is_call) on every carrier, no law of arithmetic used. The translator trusts: "
+    "(i) Python semantics of the subset it accepts (straight-line assignments evaluated in order with rebinding = "
+    "shadowing, `if` without else, one count-down `for ... in xrange(start, 0, -1)`, a generator yielding one number per "
+    "pass and suspended at the yield, `try/except` around ONE division whose only exception is the ZeroDivisionError of "
+    "`1 / c` for c == 0, `all()` over a generator stopping at the first false test and abandoning the generator, "
+    "`except ParCorError` catching what the generator raises; ParCorError derives from ZeroDivisionError and `/` is the "
+    "true division: both checked in the source), everything outside the subset being a TranslationError = broken "
+    "obligation; (ii) the VOCABULARY mapping ALV/Model/C11Src.lean, hand-written: what ZFilter(poly), f.denominator, "
+    "f.numpoly[i], len(f.numerator), f / g, f(1 / z), f * z ** e, k * f, f - g, f / c, f - c, f + 1, abs(k) and k ** 2 do "
+    "to the coefficients of a filter with a constant denominator (window of Laurent coefficients; `f + 1` over the "
+    "denominator d adds d, i.e. 1 * d = d is used; absent terms read as zero; the operation order of "
+    "ALV/Model/C11Float.lean) - validated by the tie, bit for bit in the float regime; (iii) the three fixed templates "
+    "(generator -> (yields, raised) recursion on the counter, all() -> short-circuit recursion, the call of parcor on "
+    "ZFilter(filt.denpoly) -> numerator := the denominator list, denominator 1, for which the feedback test passes: "
+    "src_guard_passes_unit_den). The translator is self-tested on every run on edited copies of the source text (extra "
+    "check translator-selftest). NOT under the translator: levinson_durbin, ZFilter / Poly arithmetic itself, the call "
+    "expression, histories (hand-written models, reasons in evidence `translated`)",
     "round 4, levinson_durbin in the float regime: the driver runs ALV.C11.levinsonG - the recursion of the theorems with "
     "the summation function as a parameter, PROVED equal to ALV.C11.levinson for the left fold on every carrier "
     "(Props.C11.levfloat_is_model) and for CPython's compensated sum over every field "
@@ -123,7 +145,11 @@ ASSUMPTIONS = [
     "or fractional powers, and never hashes a Poly (a hashed Poly refuses item assignment)",
 ]
 MANIFEST = {
-    "text": ("ROUND 4: what is RUN on binary64 is the generic loop at carrier F64 (instantiation theorems; "
+    "text": ("ROUND 5: parcor and parcor_stable are under a TRANSLATOR - their statements are regenerated from "
+             "audiolazy/lazy_lpc.py into lean/ALV/Gen/C11Src.lean before every build (loop body, generator, gain "
+             "normalisation, feedback test, stability test; the squaring operator `k ** 2` read from the source) and "
+             "proved equal to the model functions every theorem below is about (src_*_is_model), on every carrier.  "
+             "ROUND 4: what is RUN on binary64 is the generic loop at carrier F64 (instantiation theorems; "
              "ParCorError on any carrier iff a yielded k has 1 - sq k = 0); levinson_durbin in the bit-exact float regime "
              "(recursion parameterised by the summation function = the model for the left fold on any carrier and for "
              "CPython's compensated sum over any field; shape and raise conditions law-free); levinson_durbin raises iff "
@@ -152,7 +178,12 @@ MANIFEST = {
              "The model is hand written (ZFilter/Poly arithmetic abstracted to a window of Laurent coefficients "
              "over a field) and validated differentially. Nothing of the property is left pending; the parcor_stable "
              "clause is proved for the specification and the repaired code, and refuted for the code as it stands (D3)."),
-    "design_ref": "DESIGN.md section 7, C11; section 8 D3; section 9",
+    "technique": ("Lean 4 machine-checked proof over an executable model + SOURCE-TO-LEAN TRANSLATOR for parcor / "
+                  "parcor_stable (harness/props/c11_tr.py regenerates lean/ALV/Gen/C11Src.lean from lazy_lpc.py on every "
+                  "run; src_*_is_model theorems: the regenerated definitions are the model, on every carrier incl. "
+                  "binary64) + differential correspondence (exact rationals; bit for bit on binary64) for everything, "
+                  "levinson_durbin and the call / history layers included"),
+    "design_ref": "DESIGN.md section 7, C11; section 8 D3; section 9; section 3.2 (T5)",
 }
 if hasattr(sys, "set_int_max_str_digits"):
     sys.set_int_max_str_digits(0)      # a mutated recursion may blow the Fractions up; still report it
@@ -935,6 +966,13 @@ def classify(c, io, drv):
     return "unclassified"
 
 
+def regenerate(eng=None):
+    """translator T5: lean/ALV/Gen/C11Src.lean from lazy_lpc.parcor / parcor_stable of the repo under test"""
+    return TR.regenerate(eng)
+
+
 def extra_checks(eng):
     for r in FL.extra_checks(eng):
+        yield r
+    for r in TR.selftest():
         yield r
